@@ -167,6 +167,25 @@ def check_case(ctx, case):
     check_cases(ctx, [case])
 
 
+def deep_nest(rng):
+    """2..62 nested blocks (at-rules are not merged by rsass, style rules are flattened): framing and indentation at depth."""
+    d = rng.choice([2, 5, 10, 20, 30, 39, 40, 41, 42, 43, 45, 50, 55, 60, 62])
+    kinds = rng.choice([['media'], ['media', 'supports'], ['media', 'rule'], ['media', 'supports', 'rule', 'unknown'], ['unknown'], ['rule']])
+    open_, n_at = [], 0
+    for i in range(d):
+        k = rng.choice(kinds)
+        if k == 'media':
+            open_.append('@media (min-width: %dpx) {' % (i + 1))
+        elif k == 'supports':
+            open_.append('@supports (display: grid) {')
+        elif k == 'unknown':
+            open_.append('@foo bar%d {' % i)
+        else:
+            open_.append('.r%d {' % i)
+    inner = rng.choice(['x { y: z; }', '.é { content: "ü"; }', '/* c */ x { y: z; w: 1px 2px; }', 'x { y: z; } q { r: s; }'])
+    return ' '.join(open_) + ' ' + inner + ' ' + '}' * d
+
+
 def worker(ctx):
     rng = ctx.rng
     corp = [c for c in corpus.load() if c['kind'] == 'ok']
@@ -175,7 +194,11 @@ def worker(ctx):
     while not ctx.expired():
         batch = []
         for _ in range(60):
-            if rng.random() < 0.6:
+            k = rng.random()
+            if k < 0.1:
+                src = deep_nest(rng)
+                fam = 'deep-nest'
+            elif k < 0.6:
                 src = proggen.program(rng, nonascii=rng.choice([0, 0.2, 0.6]))
                 fam = 'generated'
             else:
